@@ -223,6 +223,14 @@ fn main() -> Result<()> {
     color_eyre::install()?;
     let opt = Opt::parse();
 
+    // verification hook (off unless built with --cfg maidsafe_safe_network_verif): print the parsed
+    // options and exit, so that the arguments antctl writes can be checked against this parser
+    #[cfg(maidsafe_safe_network_verif)]
+    if env::var_os("VERIF_DUMP_OPT").is_some() {
+        println!("{opt:#?}");
+        return Ok(());
+    }
+
     if let Some(network_id) = opt.network_id {
         version::set_network_id(network_id);
     }
